@@ -3,6 +3,8 @@ package main
 import (
 	"bytes"
 	"fmt"
+	"github.com/go-gts/gts"
+	"io/ioutil"
 	"strings"
 
 	"github.com/go-gts/gts/seqio"
@@ -115,7 +117,33 @@ func runParser(p pars.Parser, input []byte) (res *pars.Result, err error, rest i
 
 func crlf(b []byte) []byte { return bytes.ReplaceAll(b, []byte("\n"), []byte("\r\n")) }
 
+// scanned records: gts.Len agrees with the residues actually held, twice over,
+// also for a record that has a CONTIG line and no ORIGIN block
+func runC16Scanned(o *Out) {
+	recs := [][]byte{}
+	for _, name := range []string{"NC_001422_part.gb", "NC_000913.3.min.gb", "pBAT5.txt"} {
+		if raw, err := ioutil.ReadFile("/repo/seqio/testdata/" + name); err == nil {
+			recs = append(recs, raw)
+		}
+	}
+	recs = append(recs, []byte("LOCUS       CONTIGONLY               500 bp    DNA     linear   SYN 01-JAN-2020\nDEFINITION  contig only.\nACCESSION   C00001\nVERSION     C00001.1\nKEYWORDS    .\nSOURCE      synthetic\n  ORGANISM  synthetic\n            other.\nFEATURES             Location/Qualifiers\n     source          1..500\n                     /organism=\"synthetic\"\nCONTIG      join(X00001.1:1..500)\n//\n"))
+	for ri, raw := range recs {
+		sc := seqio.NewAutoScanner(bytes.NewReader(raw))
+		for sc.Scan() {
+			seq := sc.Value()
+			n1 := gts.Len(seq)
+			b1 := seq.Bytes()
+			n2 := gts.Len(seq)
+			b2 := seq.Bytes()
+			if n1 != len(b1) || n2 != len(b2) || !bytes.Equal(b1, b2) {
+				o.Violate("scanned-len-vs-bytes", fmt.Sprintf("record %d", ri), fmt.Sprintf("Len %d/%d, Bytes %d/%d", n1, n2, len(b1), len(b2)))
+			}
+		}
+	}
+}
+
 func runC16(o *Out) {
+	runC16Scanned(o)
 	maxLen := 400
 	arithMax := 3000
 	if o.Tier == "thorough" {
@@ -157,6 +185,24 @@ func runC16(o *Out) {
 			pr := seqio.Origin{Buffer: append([]byte(nil), p...), Parsed: true}
 			if pr.String() != string(block) || pr.Len() != n {
 				o.Violate("parsed-origin-string", line, "String()/Len() of a parsed origin disagree")
+			}
+			// the same value asked again: decoding happens once, every later call
+			// of Bytes / Len / String agrees with the first
+			if n <= 140 {
+				for _, mk := range []func() *seqio.Origin{
+					func() *seqio.Origin { return &seqio.Origin{Buffer: append([]byte(nil), block...)} },
+					func() *seqio.Origin { return seqio.NewOrigin(append([]byte(nil), p...)) },
+				} {
+					og := mk()
+					b1 := append([]byte(nil), og.Bytes()...)
+					l1 := og.Len()
+					b2 := append([]byte(nil), og.Bytes()...)
+					s2 := og.String()
+					b3 := og.Bytes()
+					if !bytes.Equal(b1, p) || !bytes.Equal(b2, p) || !bytes.Equal(b3, p) || l1 != n || og.Len() != n || s2 != string(block) {
+						o.Violate("origin-asked-twice", line, fmt.Sprintf("Bytes %d/%d/%d bytes, Len %d/%d, want %d", len(b1), len(b2), len(b3), l1, og.Len(), n))
+					}
+				}
 			}
 		}
 	}
